@@ -1,13 +1,194 @@
+import LA.Model.Coalesce
+import LA.Model.CoalesceHeap
 import LA.Drv.Util
 
-/-! line-protocol commands of the Coalesce family (filled in with its model). -/
+/-!
+Line-protocol commands of the Coalesce family (first word `coal`).
+
+```
+coal run <view> <view> …          → <event> | err:empty | err:nosyscall | panic      (pure model, C09)
+coal reset                         → ok            (C15: fresh heap holding the regenerated tables)
+coal msg <view>                    → <id>          (new message object, cache empty)
+coal touch <id>                    → ok            (somebody called Data() on it)
+coal coalesce <id,id,…>            → <k> <event>   | err:… | panic    (k = index of the new event in the pool)
+coal resolve <k> <lookups>         → <event>
+coal obs                           → <event>|<event>|…   (every event of the pool as it reads now)
+coal msgs                          → <view>|<view>|…     (what every message reports now)
+```
+view    = `<typ>/<seq>/<ts>/<data>/<tags>`; data = `!` (Data() failed) | `_` | `hk:hv,hk:hv`; tags = `_` | `h,h`
+lookups = `<u>/<g>/<un>/<gn>`, each `_` | `hk:hv,…` (id→name for users, groups; name→id for users, groups)
+-/
 namespace LA.Drv.Coalesce
+open LA LA.Coalesce
 
 structure State where
-  dummy : Unit := ()
+  heap : LA.Coalesce.Heap := LA.Coalesce.Heap.init LA.Coalesce.genTables
+  pool : List LA.Coalesce.EventH := []
 
 def init : State := {}
 
-def cmd (s : State) (_args : List String) : State × String := (s, "bad-op")
+/-! ### parsing -/
+
+def parsePairs (s : String) : Option KV :=
+  if s == "_" then some [] else
+  (s.splitOn ",").foldr (fun item acc =>
+    match acc, item.splitOn ":" with
+    | some l, [k, v] =>
+      match unhex k, unhex v with
+      | some k, some v => some ((k, v) :: l)
+      | _, _ => none
+    | _, _ => none) (some [])
+
+def parseList (s : String) : Option (List Bytes) :=
+  if s == "_" then some [] else
+  (s.splitOn ",").foldr (fun item acc =>
+    match acc, unhex item with
+    | some l, some b => some (b :: l)
+    | _, _ => none) (some [])
+
+def parseView (w : String) : Option View :=
+  match w.splitOn "/" with
+  | [typ, seq, ts, data, tags] =>
+    match typ.toNat?, seq.toNat?, ts.toNat?, parseList tags with
+    | some typ, some seq, some ts, some tags =>
+      if data == "!" then some { typ, seq, ts, data := none, tags }
+      else match parsePairs data with
+        | some d => some { typ, seq, ts, data := some d, tags }
+        | none => none
+    | _, _, _, _ => none
+  | _ => none
+
+def parseViews (ws : List String) : Option (List View) :=
+  ws.foldr (fun w acc => match acc, parseView w with
+    | some l, some v => some (v :: l)
+    | _, _ => none) (some [])
+
+def parseNats (s : String) : Option (List Nat) :=
+  if s == "_" then some [] else
+  (s.splitOn ",").foldr (fun item acc => match acc, item.toNat? with
+    | some l, some n => some (n :: l)
+    | _, _ => none) (some [])
+
+def tableFn (m : KV) : Bytes → Bytes := fun k => getD k m
+
+def parseLookups (w : String) : Option Lookups :=
+  match w.splitOn "/" with
+  | [u, g, un, gn] =>
+    match parsePairs u, parsePairs g, parsePairs un, parsePairs gn with
+    | some u, some g, some un, some gn =>
+      some { userById := tableFn u, groupById := tableFn g, userByName := tableFn un, groupByName := tableFn gn }
+    | _, _, _, _ => none
+  | _ => none
+
+/-! ### canonical rendering (the Go side prints the same text from the real *Event) -/
+
+def strLe (a b : String) : Bool := !(decide (b < a))
+
+def renderMap (m : KV) : String :=
+  let items := (m.map fun p => (hex p.1, hex p.2)).mergeSort (fun a b => strLe a.1 b.1)
+  "[" ++ ",".intercalate (items.map fun p => p.1 ++ ":" ++ p.2) ++ "]"
+
+def renderList (l : List Bytes) : String := "[" ++ ",".intercalate (l.map hex) ++ "]"
+
+def renderWarn : Warn → String
+  | .dataErr => "dataerr"
+  | .parseFail t =>
+    if t = PATH then "parse:path" else if t = SOCKADDR then "parse:sockaddr"
+    else if t = EXECVE then "parse:execve" else "parse:other"
+  | .sockaddrNoSyscall => "sockaddr-nosyscall"
+  | .dupKey k t => "dup:" ++ hex k ++ ":" ++ toString t
+  | .noArgc => "noargc"
+  | .badArgc => "badargc"
+  | .noArg k => "noarg:" ++ hex k
+  | .noNorm => "nonorm"
+  | .fileObj => "fileobj"
+  | .subjPrimary => "subjp"
+  | .subjSecondary => "subjs"
+  | .objPrimary => "objp"
+  | .objSecondary => "objs"
+  | .how => "how"
+  | .sourceIP => "srcip"
+
+def renderFile : Option File → String
+  | none => "nil"
+  | some f => ",".intercalate [hex f.path, hex f.device, hex f.inode, hex f.mode, hex f.uid, hex f.gid,
+                               hex f.owner, hex f.group, renderMap f.selinux]
+
+def renderAddr : Option Addr → String
+  | none => "nil"
+  | some a => ",".intercalate [hex a.hostname, hex a.ip, hex a.port, hex a.path]
+
+def renderEntity (x : Entity) : String := hex x.name ++ "," ++ hex x.id
+
+def renderEvent (e : Event) : String :=
+  ";".intercalate [
+    "ts=" ++ toString e.ts, "seq=" ++ toString e.seq, "cat=" ++ toString e.cat, "typ=" ++ toString e.typ,
+    "result=" ++ hex e.result, "session=" ++ hex e.session, "tags=" ++ renderList e.tags,
+    "ap=" ++ hex e.actorPrimary, "as=" ++ hex e.actorSecondary, "action=" ++ hex e.action,
+    "ot=" ++ hex e.objType, "op=" ++ hex e.objPrimary, "os=" ++ hex e.objSecondary, "how=" ++ hex e.how,
+    "ids=" ++ renderMap e.ids, "names=" ++ renderMap e.names, "selinux=" ++ renderMap e.selinux,
+    "pid=" ++ hex e.pid, "ppid=" ++ hex e.ppid, "title=" ++ hex e.title, "pname=" ++ hex e.pname,
+    "exe=" ++ hex e.exe, "cwd=" ++ hex e.cwd, "args=" ++ renderList e.args,
+    "file=" ++ renderFile e.file, "src=" ++ renderAddr e.source, "dst=" ++ renderAddr e.dest,
+    "net=" ++ toString (e.net.getD 0),
+    "data=" ++ renderMap e.data, "paths=" ++ "|".intercalate (e.paths.map renderMap),
+    "kind=" ++ hex e.ecsKind, "ecat=" ++ renderList e.ecsCategory, "etype=" ++ renderList e.ecsType,
+    "outcome=" ++ hex e.ecsOutcome,
+    "eu=" ++ renderEntity e.ecsUser, "ee=" ++ renderEntity e.ecsEffective, "et=" ++ renderEntity e.ecsTarget,
+    "ec=" ++ renderEntity e.ecsChanges, "eg=" ++ renderEntity e.ecsGroup,
+    "warn=" ++ ",".intercalate ((e.warnings.map renderWarn).mergeSort strLe)]
+
+def renderOutcome : Outcome Event → String
+  | .ok e => renderEvent e
+  | .err .empty => "err:empty"
+  | .err .noSyscall => "err:nosyscall"
+  | .panic => "panic"
+
+def renderParsed (p : Parsed) : String :=
+  (match p.data with
+   | none => "!"
+   | some d => renderMap d) ++ "/" ++ renderList p.tags
+
+/-! ### commands -/
+
+def cmd (s : State) (args : List String) : State × String :=
+  match args with
+  | "run" :: ws =>
+    match parseViews ws with
+    | some vs => (s, renderOutcome (coalesce genTables vs))
+    | none => (s, "bad-op")
+  | ["reset"] => ({}, "ok")
+  | ["msg", w] =>
+    match parseView w with
+    | some v =>
+      let r := s.heap.newMsg v
+      ({ s with heap := r.1 }, toString r.2)
+    | none => (s, "bad-op")
+  | ["touch", i] =>
+    match i.toNat? with
+    | some i => ({ s with heap := (dataH s.heap i).1 }, "ok")
+    | none => (s, "bad-op")
+  | ["coalesce", ids] =>
+    match parseNats ids with
+    | some ids =>
+      let r := coalesceH genTables s.heap ids
+      match r.2 with
+      | .ok eh => ({ heap := r.1, pool := s.pool ++ [eh] }, toString s.pool.length ++ " " ++ renderEvent (deref r.1 eh))
+      | .err .empty => ({ s with heap := r.1 }, "err:empty")
+      | .err .noSyscall => ({ s with heap := r.1 }, "err:nosyscall")
+      | .panic => ({ s with heap := r.1 }, "panic")
+    | none => (s, "bad-op")
+  | ["resolve", k, lk] =>
+    match k.toNat?, parseLookups lk with
+    | some k, some L =>
+      match s.pool[k]? with
+      | some eh =>
+        let eh' := resolveH L eh
+        ({ s with pool := s.pool.set k eh' }, renderEvent (deref s.heap eh'))
+      | none => (s, "bad-op")
+    | _, _ => (s, "bad-op")
+  | ["obs"] => (s, "|".intercalate (s.pool.map fun eh => renderEvent (deref s.heap eh)))
+  | ["msgs"] => (s, "|".intercalate (s.heap.msgs.map fun c => renderParsed (obsCell c)))
+  | _ => (s, "bad-op")
 
 end LA.Drv.Coalesce
